@@ -69,3 +69,4 @@ package coreutils
 // Sub panics on underflow; its callers are checked through their own postconditions.
 //@ extern (types.Currency).Sub pure
 //@   ensures cval(c) >= cval(v) ==> cval(result) == cval(c) - cval(v)
+//@ extern (types.Currency).String pure
